@@ -1,0 +1,24 @@
+//! C03 hooks: public wrappers around the crate-private client half of the
+//! relay handshake (`clientside`, `KeyMaterialClientAuth::new` +
+//! `into_header_value`).  No behaviour of their own.
+use http::HeaderValue;
+use iroh_base::SecretKey;
+
+use crate::{
+    ExportKeyingMaterial,
+    protos::{handshake, streams::BytesStreamSink},
+};
+
+/// `handshake::clientside`, result mapped to `()`.
+pub async fn clientside(
+    io: &mut (impl BytesStreamSink + ExportKeyingMaterial),
+    secret_key: &SecretKey,
+) -> Result<(), handshake::Error> {
+    handshake::clientside(io, secret_key).await.map(|_| ())
+}
+
+/// `KeyMaterialClientAuth::new(..).map(into_header_value)`.
+pub fn km_header(secret_key: &SecretKey, io: &impl ExportKeyingMaterial) -> Option<HeaderValue> {
+    handshake::KeyMaterialClientAuth::new(secret_key, io)
+        .map(handshake::KeyMaterialClientAuth::into_header_value)
+}
